@@ -19,6 +19,7 @@ import (
 	"github.com/luraproject/lura/v2/config"
 	"github.com/luraproject/lura/v2/logging"
 	"github.com/luraproject/lura/v2/proxy"
+	"github.com/luraproject/lura/v2/proxy/plugin"
 	krakendgin "github.com/luraproject/lura/v2/router/gin"
 	"github.com/luraproject/lura/v2/router/mux"
 	"github.com/luraproject/lura/v2/transport/http/client"
@@ -72,10 +73,27 @@ type gwcfg struct {
 	byID   bool   // the endpoint forwards the query parameter id: the backend picks its script per request
 	ef     string // backend extra_config of the http client: "" | details (return_error_details) | code (return_error_code)
 	fwdAE  bool   // the endpoint forwards Accept-Encoding and the client sends "gzip": Go's transport leaves a gzip body alone
+	plug   string // pass-through response-modifier plugin named in extra_config: "" | endpoint | backend | both
+	empty  bool   // explicitly empty manipulation lists on the backend: allow [], deny [], mapping {}
 }
 
 func (g gwcfg) key() string {
-	return fmt.Sprintf("%s-%s-%v-%s-%d-%v-%v-%s-%v", g.router, g.be, g.coll, g.oe, g.cc, g.raw, g.byID, g.ef, g.fwdAE)
+	return fmt.Sprintf("%s-%s-%v-%s-%d-%v-%v-%s-%v", g.router, g.be, g.coll, g.oe, g.cc, g.raw, g.byID, g.ef, g.fwdAE) + fmt.Sprintf("-%s-%v", g.plug, g.empty)
+}
+
+// a response-modifier plugin that observes and hands back what it got (registered in-process, the
+// way a loaded .so plugin registers itself)
+const observerName = "c13-observer"
+
+var observed atomic.Int64
+
+func init() {
+	plugin.RegisterModifier(observerName, func(map[string]interface{}) func(interface{}) (interface{}, error) {
+		return func(in interface{}) (interface{}, error) {
+			observed.Add(1)
+			return in, nil
+		}
+	}, false, true)
 }
 
 func newWorld() *world {
@@ -148,11 +166,27 @@ func (w *world) gateway(g gwcfg) string {
 	if g.fwdAE {
 		ep.HeadersToPass = []string{"Accept-Encoding"}
 	}
+	if g.empty {
+		ep.Backend[0].AllowList = []string{}
+		ep.Backend[0].DenyList = []string{}
+		ep.Backend[0].Mapping = map[string]string{}
+	}
+	plugCfg := func() map[string]interface{} { return map[string]interface{}{"name": []interface{}{observerName}} }
+	if g.plug == "endpoint" || g.plug == "both" {
+		ep.ExtraConfig = config.ExtraConfig{plugin.Namespace: plugCfg()}
+	}
+	backendExtra := config.ExtraConfig{}
+	if g.plug == "backend" || g.plug == "both" {
+		backendExtra[plugin.Namespace] = plugCfg()
+	}
 	switch g.ef {
 	case "details":
-		ep.Backend[0].ExtraConfig = config.ExtraConfig{client.Namespace: map[string]interface{}{"return_error_details": "be1"}}
+		backendExtra[client.Namespace] = map[string]interface{}{"return_error_details": "be1"}
 	case "code":
-		ep.Backend[0].ExtraConfig = config.ExtraConfig{client.Namespace: map[string]interface{}{"return_error_code": true}}
+		backendExtra[client.Namespace] = map[string]interface{}{"return_error_code": true}
+	}
+	if len(backendExtra) > 0 {
+		ep.Backend[0].ExtraConfig = backendExtra
 	}
 	sc.Endpoints = []*config.EndpointConfig{ep}
 	if err := sc.Init(); err != nil {
